@@ -351,6 +351,10 @@ def invalid_args(rec, rng, xr):
         "split_fmax_le_fmin": lambda: da.spec.split(fmin=0.2, fmax=float(rng.choice([0.2, 0.1]))),
         "split_dmax_le_dmin": lambda: da.spec.split(dmin=90, dmax=float(rng.choice([90, 10]))),
         "bbox_overlap": lambda: da.spec.partition.bbox([dict(fmin=0.05, fmax=0.2, dmin=0, dmax=180), dict(fmin=0.1, fmax=0.3, dmin=90, dmax=270)]),
+        # three boxes listed in any order; the overlapping pair is not adjacent when sorted by fmin (a box of another
+        # direction sector sorts between them)
+        "bbox_overlap_three": lambda: da.spec.partition.bbox([[dict(fmin=0.05, fmax=0.20, dmin=0, dmax=90), dict(fmin=0.10, fmax=0.15, dmin=180, dmax=270),
+                                                               dict(fmin=0.12, fmax=0.30, dmin=45, dmax=135)][i_] for i_ in rng.permutation(3)]),
         "bbox_fmin_ge_fmax": lambda: da.spec.partition.bbox([dict(fmin=0.3, fmax=0.1)]),
         "stats_unknown": lambda: da.spec.stats(["hs", "not_a_stat"]),
         "stats_noncontainer": lambda: da.spec.stats("hs" if rng.random() < 0.5 else 3),
